@@ -349,3 +349,135 @@ Proof.
             negb (opt_pair_eqb (s_room s) (Some (s_backend s, rn)))); [|exact J].
   destruct (revoke h1 sid) as [h2 o2]. exact Rv.
 Qed.
+
+(* ------------------------------------------------------------------ folds over sessions with the ghost *)
+Lemma fold_J (J : hub -> ghost -> Prop) l f :
+  (forall hh gg x, In x l -> J hh gg -> J (fst (f hh x)) (gouts gg (snd (f hh x)))) ->
+  forall h g, J h g -> J (fst (fold_sessions h l f)) (gouts g (snd (fold_sessions h l f))).
+Proof.
+  induction l as [|x l IH]; intros Hf h g Hj; [exact Hj|].
+  rewrite fold_sessions_cons. pose proof (Hf h g x (or_introl eq_refl) Hj) as H1. destruct (f h x) as [h1 o1]. cbn [fst snd] in H1.
+  pose proof (IH (fun hh gg y Hy => Hf hh gg y (or_intror Hy)) h1 (gouts g o1) H1) as H2.
+  destruct (fold_sessions h1 l f) as [h2 o2]. cbn [fst snd] in *. now rewrite gouts_app.
+Qed.
+
+(* live sessions have ids handed out by the counter *)
+Definition IDS (h : hub) : Prop := forall x s, get_sess h x = Some s -> x <= h_nextsid h.
+Lemma ids_of_inv h : Inv h -> IDS h.
+Proof. intros Iv x s Hs. apply (inv_ids h Iv). eexists; exact Hs. Qed.
+
+Definition JD (h : hub) (g : ghost) : Prop := RI h g /\ PC h /\ IDS h.
+
+(* ------------------------------------------------------------------ deletion of a room (ADelete delivered) *)
+Lemma jd_delete_member hh gg m : JD hh gg -> JD (fst (delete_member hh m)) (gouts gg (snd (delete_member hh m))).
+Proof.
+  intros (I & P & D). unfold delete_member. destruct (get_sess hh m) as [s|] eqn:Hs; [|exact (conj I (conj P D))].
+  destruct (is_virtual (s_kind s)) eqn:Hv.
+  - pose proof (nr_leave_room noex hh hh m true) as L.
+    assert (Hx : noex m \/ (forall s0, get_sess hh m = Some s0 -> is_virtual (s_kind s0) = true)) by (right; intros s0 E; congruence).
+    specialize (L Hx (nr_refl _ _)). pose proof (rel0_leave_room m hh m true) as R0.
+    assert (R0' : forall y, rel0 y hh (fst (leave_room hh m true))) by (intros y; apply rel0_leave_room).
+    destruct (leave_room hh m true) as [h2 o1]. cbn [fst snd] in *. destruct L as [B Q]. cbn [fst snd] in B, Q. split; [|split].
+    + apply (ri_quiet hh gg (h2, o1) I). split; assumption.
+    + apply (pc_nr noex hh h2 P B). intros x s0 [].
+    + intros y t Ht. destruct (r0_core _ _ _ (R0' y) t Ht) as (t0 & Ht0 & _). rewrite (r0_next _ _ _ (R0' y)). now apply (D y t0).
+  - pose proof (ri_leave_tell hh gg m true s I P Hs Hv (D m s Hs)) as R. cbv zeta in R.
+    destruct (leave_room hh m true) as [h2 o1]. cbn [fst snd] in R. destruct (send_session h2 m (SRoom 0)) as [h3 o2]. cbn [fst snd] in *.
+    destruct R as (R & P3 & Nx & _ & Kd). split; [exact R|split; [exact P3|]].
+    intros y t' Ht'. destruct (Kd y t' Ht') as (t & Ht & _). pose proof (D y t Ht). lia.
+Qed.
+
+Lemma jd_nr h h' g outs : JD h g -> NR noex h h' -> qouts outs -> (forall y, rel0 y h h') -> JD h' (gouts g outs).
+Proof.
+  intros (I & P & D) B Q R0. split; [|split].
+  - apply (ri_quiet h g (h', outs) I). split; assumption.
+  - apply (pc_nr noex h h' P B). intros x s0 [].
+  - intros y t Ht. destruct (r0_core _ _ _ (R0 y) t Ht) as (t0 & Ht0 & _). rewrite (r0_next _ _ _ (R0 y)). now apply (D y t0).
+Qed.
+
+Lemma jd_room_delete h g k : JD h g -> JD (fst (room_request h k ADelete)) (gouts g (snd (room_request h k ADelete))).
+Proof.
+  intros J. unfold room_request. destruct (room_of h k) as [r|]; [|exact J].
+  set (internals := filter _ (r_members r)).
+  pose proof (nr_fold_sessions noex h internals (fun hh m => send_session hh m SRoomDeleted) h
+                (fun hh x B => nr_send_irr noex h hh x SRoomDeleted eq_refl B) (nr_refl _ _)) as [B0 Q0].
+  assert (R0 : forall y, rel0 y h (fst (fold_sessions h internals (fun hh m => send_session hh m SRoomDeleted)))).
+  { intros y. apply rel0_fold_sessions. intros hh x. apply rel0_send_session. }
+  destruct (fold_sessions h internals (fun hh m => send_session hh m SRoomDeleted)) as [h0 outs0]. cbn [fst snd] in *.
+  assert (J1 : JD (set_rooms h0 (pdel (h_rooms h0) k)) (gouts g outs0)).
+  { apply (jd_nr h); [exact J|now apply nr_pdel|exact Q0|]. intros y. destruct (R0 y) as [A B]. constructor; [exact A|exact B]. }
+  pose proof (fold_J JD (r_members r) delete_member (fun hh gg x _ Hj => jd_delete_member hh gg x Hj) _ _ J1) as J9.
+  destruct (fold_sessions (set_rooms h0 (pdel (h_rooms h0) k)) (r_members r) delete_member) as [h9 outs9]. cbn [fst snd] in *.
+  now rewrite gouts_app.
+Qed.
+
+(* ------------------------------------------------------------------ a room message from the bus: the properties of room r changed *)
+Lemma tapply_room_same rn d : rn <> 0 -> tapply (Some (rn, d)) (SRoom rn) = Some (rn, d).
+Proof. intros Hz. destruct rn as [|p]; [contradiction|]. cbn. now rewrite Pos.eqb_refl. Qed.
+
+Lemma jd_sent_noop h g h' g' m T : JD h g -> sent h g h' g' m T ->
+  (forall y s, T y = true -> get_sess h y = Some s ->
+     tapply (replayT (s_pending s) (g_rep g y)) m = replayT (s_pending s) (g_rep g y)) ->
+  (forall y, T y = true -> exists s, get_sess h y = Some s) ->
+  JD h' g'.
+Proof.
+  intros (I & P & D) St Hn Hl.
+  assert (Live : forall y t', get_sess h' y = Some t' -> exists t, get_sess h y = Some t /\ s_kind t' = s_kind t /\ s_conn t' = s_conn t /\
+             s_room t' = s_room t /\ replayT (s_pending t') (g_rep g' y) = replayT (s_pending t) (g_rep g y)).
+  { intros y t' Ht'. pose proof (sent_live _ _ _ _ _ _ y St) as L. rewrite Ht' in L. destruct (get_sess h y) as [t|] eqn:Ht; [|destruct L].
+    exists t. destruct L as (K & C & Rm & E). repeat split; auto. rewrite E. destruct (T y) eqn:Ty; [now apply Hn|reflexivity]. }
+  split; [|split].
+  - constructor.
+    + intros y t' Ht'. destruct (Live y t' Ht') as (t & Ht & K & C & Rm & E).
+      apply (rix_move h h' g g' y t t'); auto.
+      * intros k r' _ Hr'. exists r'. split; [|reflexivity]. unfold room_of in *. now rewrite <- (st_rooms _ _ _ _ _ _ St).
+      * apply (st_bind _ _ _ _ _ _ St).
+      * apply (st_hf _ _ _ _ _ _ St) with y; [|exact Ht']. intros z tz Hz. apply (ri_hf _ _ _ _ (ri_sess _ _ I z tz Hz)).
+      * now apply (ri_sess _ _ I).
+    + intros x Hx. rewrite (st_next _ _ _ _ _ _ St) in Hx. rewrite (st_other _ _ _ _ _ _ St x); [now apply (ri_fresh _ _ I)|].
+      destruct (T x) eqn:Tx; [|reflexivity]. destruct (Hl x Tx) as (s & Hs). pose proof (D x s Hs). lia.
+  - intros y t' Ht' Hc. destruct (st_si _ _ _ _ _ _ St y t' Ht') as [_ Pe]. now apply Pe.
+  - intros y t' Ht'. destruct (Live y t' Ht') as (t & Ht & _). rewrite (st_next _ _ _ _ _ _ St). now apply (D y t).
+Qed.
+
+Lemma In_aget_nodup' {V} (l : alist V) k v : NoDup (map fst l) -> In (k, v) l -> aget l k = Some v.
+Proof.
+  induction l as [|[k' v'] l IH]; cbn; [intros _ []|]. intros Nd [E|Hin].
+  - injection E as -> ->. now rewrite N.eqb_refl.
+  - inversion Nd as [|? ? Hn Nd']; subst. destruct (N.eqb_spec k k') as [->|]; [|now apply IH].
+    exfalso. apply Hn. apply in_map_iff. exists (k', v). auto.
+Qed.
+
+Lemma jd_room_event h g b r sender co t : keys_ok h -> JD h g ->
+  let f := fun hh x => recv_event hh x (SRoom r) sender co false t in
+  JD (fst (fold_sessions h (room_listeners h (b, r)) f)) (gouts g (snd (fold_sessions h (room_listeners h (b, r)) f))).
+Proof.
+  intros Kk J f.
+  set (L := room_listeners h (b, r)).
+  set (JJ := fun hh gg => JD hh gg /\ forall x, In x L -> exists s, get_sess hh x = Some s /\ is_virtual (s_kind s) = false /\ s_room s = Some (b, r)).
+  assert (H0 : JJ h g).
+  { split; [exact J|]. intros x Hx. unfold L, room_listeners in Hx. apply in_map_iff in Hx as ([x' s] & <- & Hin).
+    apply filter_In in Hin as [Hin Hf]. cbn [fst snd] in *. apply andb_true_iff in Hf as [Hv Hr].
+    destruct J as (I & _ & _).
+    (* the entry is the session: keys of reachable session tables are unique only under an invariant we do not have here;
+       use the entry that get_sess finds *)
+    exists s. split; [unfold get_sess; now apply In_aget_nodup'|]. apply negb_true_iff in Hv. destruct (s_room s) as [k0|] eqn:Hk; [|discriminate Hr]. cbn in Hr.
+    destruct (pair_eqb_spec k0 (b, r)) as [->|]; [|discriminate Hr]. auto. }
+  enough (X : JJ (fst (fold_sessions h L f)) (gouts g (snd (fold_sessions h L f)))) by exact (proj1 X).
+  apply (fold_J JJ); [|exact H0]. clear H0. intros hh gg x Hx (Jh & HL).
+  destruct (HL x Hx) as (s & Hs & Hv & Hr).
+  assert (Hf : f hh x = (hh, []) \/ f hh x = send_session hh x (SRoom r)).
+  { unfold f, recv_event. rewrite Hs. destruct (N.eqb sender x && negb (N.eqb sender 0)); [now left|].
+    destruct (co && negb (in_call hh x s)); [now left|]. cbn [andb]. now right. }
+  destruct Hf as [->| ->]; [cbn [fst snd]; split; [exact Jh|exact HL]|].
+  destruct Jh as (I & P & D).
+  pose proof (send1 (SRoom r) hh gg x s Logic.I (fun y ty Hy => conj (ri_bind _ _ _ _ (ri_sess _ _ I y ty Hy)) (P y ty Hy)) Hs Hv) as St.
+  destruct (send_session hh x (SRoom r)) as [h' o']. cbn [fst snd] in *. split.
+  - apply (jd_sent_noop hh gg h' (gouts gg o') (SRoom r) (fun y => N.eqb y x)); [exact (conj I (conj P D))|exact St| |].
+    + intros y sy Ty Hy. apply N.eqb_eq in Ty. subst y. assert (sy = s) by congruence. subst sy.
+      pose proof (ri_rep _ _ _ _ (ri_sess _ _ I x s Hs) Hv) as Rp. rewrite Hr in Rp. destruct Rp as (Nz & d & Hd & _).
+      rewrite Hd. now apply tapply_room_same.
+    + intros y Ty. apply N.eqb_eq in Ty. subst y. eauto.
+  - intros y Hy. destruct (HL y Hy) as (sy & Hsy & Hvy & Hry). pose proof (sent_live _ _ _ _ _ _ y St) as Lv. rewrite Hsy in Lv.
+    destruct (get_sess h' y) as [sy'|]; [|destruct Lv]. exists sy'. destruct Lv as (K & _ & Rm & _). repeat split; congruence.
+Qed.
